@@ -162,7 +162,7 @@ def dynamic_candidates(t, closures, crates):
 def check(ctx, rep):
     rep.rule('R08.a', 'no user code runs under the executor\'s task lock; the slot is taken in the region that looked it up', floor=2)
     rep.rule('R08.b', 'the lock-order graph is acyclic', floor=5)
-    rep.rule('R08.c', 'flag loads are >= Acquire, stores >= Release; the timer counter is only touched by an atomic RMW', floor=8)
+    rep.rule('R08.c', 'flag loads are >= Acquire, stores >= Release; the timer counter is only touched by an atomic RMW', floor=5)
     rep.rule('R08.d', 'the eviction test reads in the reverse of the order in which CommandWaker publishes', floor=2)
     crates = [ctx.crate('default', n) for n in RUNTIME]
     if any(c is None for c in crates):
